@@ -158,14 +158,16 @@ def hazards_of(lex):
 @st.composite
 def script(draw, exclude=frozenset(), depth=3, max_pre=3, max_post=3, comments=5, **lay):
     """-> laid-out lexemes: p plain statements, the CREATE statement, q plain statements, all ';'-terminated"""
-    pre = [draw(G.small_statement()) for _ in range(draw(st.integers(0, max_pre)))]
-    post = [draw(G.small_statement()) for _ in range(draw(st.integers(0, max_post)))]
+    npre, npost = draw(st.integers(0, max_pre)), draw(st.integers(0, max_post))
+    raw, pool = draw(G.predrawn_layout(comments))       # controls and layout first, the big structure last
+    pre = [draw(G.small_statement()) for _ in range(npre)]
+    post = [draw(G.small_statement()) for _ in range(npost)]
     cr = draw(create(depth, exclude))
     lex = []
     for s in pre + [cr] + post:
         lex.extend(s)
         lex.append(list(G.SEMI))
-    return draw(G.layout(lex, comments=comments, **lay))
+    return draw(G.layout(lex, comments=comments, raw=raw, pool=pool, **lay))
 
 
 def rendered_script():
